@@ -8,6 +8,8 @@
 //	auth  -in input.json -out trace.ndjson -keys k  spec -> code: TcpAuthGen behaviours (salt choices incl. reflected
 //	                                                real server output); trace for TcpAuthTrace
 //	salts -n N -out trace.ndjson                    response salts of N real connections (freshness, marks)
+//	storm -g G -n N -sample S -out trace.ndjson     G goroutines x N genuine handshakes on ONE key at the same time (per
+//	                                                marked cipher class) + reflections of the recordings; TcpAuthTrace
 //	conc  -g G -n N -out trace.ndjson               code -> spec: G goroutines of lookups / marks against Updates on one
 //	                                                real list (build with -race); call/return trace for CipherListTrace
 //
@@ -45,6 +47,7 @@ func main() {
 	par := fs.Int("par", 8, "behaviours / connections in parallel")
 	n := fs.Int("n", 500, "salts: connections; conc: operations per goroutine")
 	g := fs.Int("g", 8, "conc: lookup goroutines")
+	sample := fs.Int("sample", 300, "storm: recordings reflected per cipher class")
 	upd := fs.Int("upd", 1, "conc: updater goroutines")
 	gens := fs.Int("gens", 60, "conc: list generations prepared per round (the updaters stop when the lookups are done)")
 	pace := fs.Int("pace", 3000, "conc: an updater sleeps 200..200+pace microseconds between Updates")
@@ -60,6 +63,8 @@ func main() {
 		modeAuth(*in, *out, *keysOut, *seed, *par, to)
 	case "salts":
 		modeSalts(*out, *n, *par, *seed)
+	case "storm":
+		modeStorm(*out, *g, *n, *sample, *seed)
 	case "conc":
 		modeConc(*out, *g, *upd, *n, *gens, *size, *rounds, *pace, *seed)
 	default:
